@@ -39,7 +39,8 @@ Inductive case :=
 | Cto (deg : bool) (vs out : list V)
 | Cfrom (deg : bool) (apr out : list V)
 | Cpdf (lower : bool) (steps : nat) (ea ep : list float) (sd : float) (radius : nat) (kern : list float)
-       (domrd : bool) (vs : list V) (ws : list float) (shape : nat * nat) (out : option (list float)).
+       (domrd : bool) (vs : list V) (ws : list float) (aps : list (option P)) (shape : nat * nat)
+       (out : option (list float)).
 Definition p_close (a b : P) : bool := fclose (fst a) (fst b) && fclose (snd a) (snd b).
 Definition v_close (a b : V) : bool :=
   let '(a0, a1, a2) := a in let '(b0, b1, b2) := b in fclose a0 b0 && fclose a1 b1 && fclose a2 b2.
@@ -55,6 +56,13 @@ Definition gkernel (sd : float) (radius : nat) : list float :=
                 (seq 0 (2 * radius + 1)) in
   let s := sumT FOps ws in map (fun x => x / s) ws.
 Definition tol9 : float := 0x1p-27.
+(* model angles of a vector vs the implementation's (nan = None) *)
+Definition ang_close (m : option P * float) (i : option P) : bool :=
+  match fst m, i with
+  | None, None => true
+  | Some a, Some b => p_close a b
+  | _, _ => false
+  end.
 Definition ok (c : case) : bool :=
   match c with
   | Cproj pole vs out => all2 p_close (vector2xy FOps pole vs) out
@@ -63,14 +71,18 @@ Definition ok (c : case) : bool :=
       let '(u, l) := vector2xy_split FOps vs in all2 p_close u up && all2 p_close l lo
   | Cto deg vs out => all2 v_close (map (vec2polar FOps deg) vs) out
   | Cfrom deg apr out => all2 v_close (map (polar2vec_r FOps deg) apr) out
-  | Cpdf lower steps ea ep sd radius kern domrd vs ws shape out =>
+  | Cpdf lower steps ea ep sd radius kern domrd vs ws aps shape out =>
       (* the implementation's grid is the model's grid, the kernel is scipy's *)
       fclose_list (az_edges FOps steps) ea && fclose_list (polar_edges FOps lower steps) ep &&
       fclose_list_tol tol9 (gkernel sd radius) kern &&
-      Nat.eqb (fst shape) (pred (length ea)) && Nat.eqb (snd shape) (pred (length ep)) &&
+      Nat.eqb (fst shape) (pred (List.length ea)) && Nat.eqb (snd shape) (pred (List.length ep)) &&
+      (* the model's to_polar of every vector agrees with the implementation's; the bins are
+         then decided on the implementation's angle values, so that a 1-ulp difference of the
+         float evaluator at a bin edge cannot flip a bin *)
+      all2 ang_close (samples_of FOps vs ws) aps &&
       match out with
       | None => true
-      | Some o => fclose_list_tol tol9 (pdf_plain FOps lower ea ep kern domrd vs ws) o
+      | Some o => fclose_list_tol tol9 (pdf_of_samples FOps ea ep kern domrd (combine aps ws)) o
       end
   end.
 """
@@ -93,7 +105,8 @@ def case_coq(c):
         out = "None" if c["out"] is None else f"(Some {fl(c['out'])})"
         return (f"Cpdf {bl(c['lower'])} {int(c['steps'])}%nat {fl(c['ea'])} {fl(c['ep'])} {fhex(c['sd'])} "
                 f"{int(c['radius'])}%nat {fl(c['kern'])} {bl(c['mrd'])} {lst([v3(v) for v in c['vs']])} "
-                f"{fl(c['ws'])} ({int(c['shape'][0])}%nat, {int(c['shape'][1])}%nat) {out}")
+                f"{fl(c['ws'])} {lst(['None' if a is None else '(Some ' + p2(a) + ')' for a in c['aps']])} "
+                f"({int(c['shape'][0])}%nat, {int(c['shape'][1])}%nat) {out}")
     raise ValueError(k)
 
 
@@ -118,7 +131,7 @@ def correspond(ck, cases):
             ck.broken.append(("correspondence", f"cases file {name}: {n} of {len(g)} cases evaluated"))
         for b in bad:
             c = g[b]
-            rep = {k: c[k] for k in c if k not in ("ea", "ep", "kern", "out") or c["k"] != "pdf"}
+            rep = {k: c[k] for k in c if k not in ("ea", "ep", "kern", "out", "aps") or c["k"] != "pdf"}
             ck.disagreement(f"model and implementation differ on a {c['k']} case", rep)
 
 
